@@ -253,12 +253,17 @@ def isValidUnicodeProperty (name value : List Nat) : Bool :=
     (/- version >= Es2018 -/ true && setContains scValuePatterns2018 value)
       || (/- version >= Es2019 -/ true && setContains scValuePatterns2019 value)
       || (/- version >= Es2020 -/ true && setContains scValuePatterns2020 value)
+      || (/- version >= Es2021 -/ true && setContains scValuePatterns2021 value)
+      || (/- version >= Es2022 -/ true && setContains scValuePatterns2022 value)
   else false
 
-/-- `unicode.rs:572-580`, `version = Es2022` (the `es2020` set is not consulted by the source) -/
+/-- `is_valid_lone_unicode_property`, `version = Es2022` (since repair 3c1912b every set is consulted) -/
 def isValidLoneUnicodeProperty (value : List Nat) : Bool :=
   (/- version >= Es2018 -/ true && setContains binPropertyPatterns2018 value)
     || (/- version >= Es2019 -/ true && setContains binPropertyPatterns2019 value)
+    || (/- version >= Es2020 -/ true && setContains binPropertyPatterns2020 value)
+    || (/- version >= Es2021 -/ true && setContains binPropertyPatterns2021 value)
+    || (/- version >= Es2022 -/ true && setContains binPropertyPatterns2022 value)
 
 /-- the `while l < r` of `is_in_range` (`unicode.rs:593-604`) -/
 def isInRangeLoop (cp : Nat) (ranges : Array Nat) : Nat → Nat → Nat → M Bool
